@@ -193,12 +193,13 @@ func ParseAux(text []byte) (Aux, error) {
 		}
 		value = Hex(b)
 	case 'B':
-		if txt[1] != ',' {
-			return nil, fmt.Errorf("sam: invalid aux tag field: %q", text)
-		}
-		nf := bytes.Split(txt[2:], []byte{','})
-		if len(nf) == 0 {
-			return nil, fmt.Errorf("sam: invalid aux tag field: %q", text)
+		// A zero-length array is written as the element type alone ("XY:B:c").
+		var nf [][]byte
+		if len(txt) > 1 {
+			if txt[1] != ',' {
+				return nil, fmt.Errorf("sam: invalid aux tag field: %q", text)
+			}
+			nf = bytes.Split(txt[2:], []byte{','})
 		}
 		switch txt[0] {
 		case 'c':
